@@ -72,16 +72,24 @@ pub fn random_header(r: &mut Rng, mtype: u8, seq: u16, body_len: usize) -> MsgHe
         // keep a raw message stream from looking like a bzip2 record to Record::compressed()
         ctm[5] = 0;
     }
+    // The size and segment fields describe the message for the RPG; a decoder of Archive II data
+    // frames fixed types by 2432 bytes and type 31 by its blocks, so any value is legal here:
+    // mostly the honest value, sometimes the variable-length marker 65535 or noise.
+    let (size_halfwords, segments, segment_number) = match r.below(8) {
+        0 => (65535u16, r.below(65536) as u16, r.below(65536) as u16),
+        1 => ([0u16, 1, 1208, 1216, 32767, 32768, 65534][r.below(7) as usize], 1 + r.below(5) as u16, 1 + r.below(5) as u16),
+        _ => ((((16 + body_len) / 2).min(65534)) as u16, 1, 1),
+    };
     MsgHeader {
         ctm,
-        size_halfwords: (((16 + body_len) / 2).min(65534)) as u16,
+        size_halfwords,
         channel: CHANNELS[r.below(6) as usize],
         mtype,
         seq,
         date: 1 + r.below(30000) as u16,
         time_ms: r.below(86_400_000) as u32,
-        segments: 1,
-        segment_number: 1,
+        segments,
+        segment_number,
     }
 }
 
@@ -157,6 +165,8 @@ pub struct T31Spec {
     pub azimuth_number: u16,
     pub radial_status: u8,
     pub vcp: u16,
+    /// header code fields take arbitrary byte values instead of documented ones
+    pub odd_codes: bool,
 }
 
 impl T31Spec {
@@ -184,11 +194,19 @@ impl T31Spec {
         }
         for (i, name) in MOMENTS.iter().enumerate() {
             if include(tape, i < 2) {
-                let gates = match tape.weighted(&[6, 2, 1, 1]) {
+                let gates = match tape.weighted(&[24, 8, 4, 4, 1]) {
                     0 => tape.draw(48) as u16,
                     1 => tape.draw(max_gates as u64 + 1) as u16,
                     2 => 0,
-                    _ => max_gates,
+                    3 => max_gates,
+                    // beyond the ICD's 1840 gates (any u16 is representable on the wire)
+                    _ => {
+                        if max_gates >= 1840 {
+                            [1841u16, 2000, 4000, 65535][tape.draw(4) as usize]
+                        } else {
+                            max_gates
+                        }
+                    }
                 };
                 let word_bits = if tape.draw(4) == 3 { 16 } else { 8 };
                 blocks.push(BlockKind::Moment { name, gates, word_bits });
@@ -221,6 +239,7 @@ impl T31Spec {
             azimuth_number: 1 + tape.draw(720) as u16,
             radial_status: tape.draw(6) as u8,
             vcp: [12u16, 31, 35, 112, 212, 215][tape.draw(6) as usize],
+            odd_codes: tape.draw(6) == 5,
         }
     }
 
@@ -255,6 +274,13 @@ impl T31Spec {
         body[24..28].copy_from_slice(&((r.below(4000) as f32) / 200.0).to_be_bytes());
         body[28] = 0; // spot blanking
         body[29] = r.below(3) as u8 * 25; // azimuth indexing mode
+        if self.odd_codes {
+            body[16] = r.below(256) as u8; // compression indicator
+            body[20] = [0u8, 0, 3, 255, r.below(256) as u8][r.below(5) as usize]; // azimuth resolution spacing
+            body[21] = r.below(256) as u8; // radial status
+            body[28] = r.below(256) as u8; // spot blanking
+            body[29] = r.below(256) as u8; // azimuth indexing mode
+        }
         body[30..32].copy_from_slice(&be16(n as u16));
         // pointers (relative to the start of the data header, i.e. of the body)
         for (k, bi) in self.pointer_order.iter().enumerate() {
@@ -434,8 +460,7 @@ impl VcpSpec {
 /// A complete frame for a fixed-length message type; `body` is padded (with noise) or must fit.
 pub fn frame(r: &mut Rng, mtype: u8, seq: u16, body: &[u8]) -> Vec<u8> {
     assert!(body.len() <= FRAME_BODY);
-    let mut h = random_header(r, mtype, seq, FRAME_BODY);
-    h.size_halfwords = ((16 + body.len()) / 2) as u16;
+    let h = random_header(r, mtype, seq, body.len());
     let mut v = h.encode();
     v.extend_from_slice(body);
     let mut pad = vec![0u8; FRAME - v.len()];
@@ -455,6 +480,8 @@ pub struct CfmRef {
     pub segments: Vec<Vec<Vec<(u16, u16)>>>,
     /// byte offsets of structural boundaries (after header, after each azimuth header, after each zone)
     pub boundaries: Vec<usize>,
+    /// byte offset just after each complete elevation segment
+    pub segment_ends: Vec<usize>,
 }
 
 pub fn clutter_filter_map(tape: &mut Tape, r: &mut Rng, max_segments: usize, big_zone: bool) -> (Vec<u8>, CfmRef) {
@@ -478,6 +505,7 @@ pub fn clutter_filter_map(tape: &mut Tape, r: &mut Rng, max_segments: usize, big
     v.extend_from_slice(&be16(nseg as u16));
     let mut boundaries = vec![v.len()];
     let mut segments = Vec::with_capacity(nseg);
+    let mut segment_ends = Vec::with_capacity(nseg);
     for s in 0..nseg {
         let mut az = Vec::with_capacity(360);
         for a in 0..360 {
@@ -505,6 +533,7 @@ pub fn clutter_filter_map(tape: &mut Tape, r: &mut Rng, max_segments: usize, big
             az.push(zones);
         }
         segments.push(az);
+        segment_ends.push(v.len());
     }
     (
         v,
@@ -513,6 +542,7 @@ pub fn clutter_filter_map(tape: &mut Tape, r: &mut Rng, max_segments: usize, big
             minutes,
             segments,
             boundaries,
+            segment_ends,
         },
     )
 }
